@@ -59,7 +59,7 @@ struct Opts {
 	bool oobAddresses = false; // addresses of non power-of-two memories may exceed the depth
 	bool triNaive = false;    // bidirectional pin: the simulation process releases the pin with 'Z' while the design drives it
 	bool setAtPowerOn = false; // first SETs are issued at power-on (time 0, outside the event loop) instead of after a short wait
-	unsigned extra = 0;       // bit mask of extra parts: 1 wide arithmetic, 2 memory, 4 tristate pin, 8 BLOCK (area with an entity inside), 16 shapes of fixed findings, 32 second edge domain (derived clock, same pin, other trigger edge), 64 ROM/RAM with partly defined power-on words, 128 ROM/RAM with read latency 2..3 and per-stage enables
+	unsigned extra = 0;       // bit mask of extra parts: 1 wide arithmetic, 2 memory, 4 tristate pin, 8 BLOCK (area with an entity inside), 16 shapes of fixed findings, 32 second edge domain (derived clock, same pin, other trigger edge), 64 ROM/RAM with partly defined power-on words, 128 ROM/RAM with read latency 2..3 and per-stage enables, 256 derived clock differing in one RegisterConfig field
 	uint64_t extraSeed = 0;
 };
 
@@ -155,6 +155,56 @@ static void buildExtras(Extra &x, const Opts &o, const Clock &clock)
 		auto p0 = pinOut(rd0).setName("x_rrd0"); auto p1 = pinOut(rd1).setName("x_rrd1");
 		x.outPins.insert(x.outPins.end(), {p0.node(), p1.node()}); x.outWidths.insert(x.outWidths.end(), {dw, dw});
 		x.desc += std::string(" pmem=") + std::to_string(depth) + "x" + std::to_string(dw) + (rom ? "rom" : "ram") + (syncRead ? "s" : "a") + ":" + shape;
+	}
+	if (o.extra & 256) {
+		// a derived clock that shares clock pin AND reset pin with the root but differs in exactly ONE field of the exporter's RegisterConfig
+		// (the key that groups registers, memory write ports and read-latency registers into clocked processes): reset polarity, reset type
+		// (synchronous / asynchronous / none) or trigger edge; registers with and without enable in both domains in the top entity, and a
+		// memory written in the root domain whose two registered read ports (with reset values) sit in the two domains. The power-on reset
+		// sequence of the reference simulator exercises both levels of the reset pin.
+		auto *rootClk = clock.getClk();
+		auto rootType = rootClk->getRegAttribs().resetType;
+		bool rootHigh = rootClk->getRegAttribs().resetActive == hlim::RegisterAttributes::Active::HIGH;
+		unsigned field = rootType == hlim::RegisterAttributes::ResetType::NONE ? 2 : (unsigned) rng.below(3); // 0 polarity, 1 reset type, 2 trigger edge
+		ClockConfig cfg;
+		std::string what;
+		if (field == 0) { cfg.resetActive = rootHigh ? ClockConfig::ResetActive::LOW : ClockConfig::ResetActive::HIGH; what = "pol"; }
+		else if (field == 1) {
+			bool toNone = rng.chance(1, 3);
+			cfg.resetType = toNone ? ClockConfig::ResetType::NONE : rootType == hlim::RegisterAttributes::ResetType::SYNCHRONOUS ? ClockConfig::ResetType::ASYNCHRONOUS : ClockConfig::ResetType::SYNCHRONOUS;
+			what = toNone ? "rtnone" : "rtype";
+		} else {
+			auto t = rootClk->getTriggerEvent();
+			cfg.triggerEvent = t == hlim::Clock::TriggerEvent::RISING ? hlim::Clock::TriggerEvent::FALLING : hlim::Clock::TriggerEvent::RISING;
+			what = "edge";
+		}
+		Clock der = clock.deriveClock(cfg);
+		size_t w = 2 + rng.below(5);
+		auto rv = [&]() { return ConstUInt(rng.below(size_t(1) << w), BitWidth(w)); };
+		UInt a = pinIn(BitWidth(w)).setName("x_ka"); Bit en = pinIn().setName("x_ken");
+		addIn(x, a); addIn(x, en);
+		bool enRoot = rng.chance(1, 2), enDer = rng.chance(1, 2), withMem = rng.chance(1, 2);
+		UInt r1, r2, r3, m0, m1;
+		{ std::optional<EnableScope> es; if (enRoot) es.emplace(en); r1 = reg(a, rv()); }
+		{ ClockScope ds(der); std::optional<EnableScope> es; if (enDer) es.emplace(en); r2 = reg(a ^ r1, rv()); }
+		{ ClockScope ds(der); r3 = reg(r2 + a, rv()); }
+		auto p1 = pinOut(r1).setName("x_kr1"); auto p2 = pinOut(r2).setName("x_kr2"); auto p3 = pinOut(r3).setName("x_kr3");
+		x.outPins.insert(x.outPins.end(), {p1.node(), p2.node(), p3.node()}); x.outWidths.insert(x.outWidths.end(), {w, w, w});
+		if (withMem) {
+			Memory<UInt> mem(4, UInt(BitWidth(w)));
+			sim::DefaultBitVectorState st; st.resize(4 * w);
+			for (size_t i = 0; i < st.size(); i++) { st.set(sim::DefaultConfig::DEFINED, i, true); st.set(sim::DefaultConfig::VALUE, i, rng.chance(1, 2)); }
+			mem.fillPowerOnState(st);
+			UInt wa = pinIn(2_b).setName("x_kwa"); UInt ra = pinIn(2_b).setName("x_kra");
+			addIn(x, wa); addIn(x, ra);
+			IF (en) mem[wa] = a;
+			UInt rd0 = mem[ra]; UInt rd1 = mem[wa];
+			m0 = reg(rd0, rv(), {.allowRetimingBackward = true});
+			{ ClockScope ds(der); m1 = reg(rd1, rv(), {.allowRetimingBackward = true}); }
+			auto p4 = pinOut(m0).setName("x_km0"); auto p5 = pinOut(m1).setName("x_km1");
+			x.outPins.insert(x.outPins.end(), {p4.node(), p5.node()}); x.outWidths.insert(x.outWidths.end(), {w, w});
+		}
+		x.desc += " cfgtwin=" + what + std::to_string(w) + (enRoot ? "e" : "") + (enDer ? "E" : "") + (withMem ? "m" : "");
 	}
 	if (o.extra & 128) {
 		// generic ROM / RAM with 2..3 cycles of read latency whose read-latency registers sit under enable scopes chosen PER STAGE
@@ -489,34 +539,51 @@ static bool runOne(uint64_t k, const vh::Recipe &recipe, const Opts &o, uint64_t
 					if (!sim::allDefined(sim.getValueOfOutput({.node = n.get(), .port = p}))) { refUndefined = true; return; }
 				}
 		};
+		// What the harness itself applied and observed (independent of the recorder): `stim <cycle> <time> <pin> <value>` for every value
+		// handed to simProcSetInputPin, `obs <cycle> <time> <pin names> <value>` for every value simProcGetValueOfOutput returned. The driver
+		// requires the recorded SET / CHECK stream to say exactly this (same pins, same defined bits, same half period of time).
+		std::ostringstream io;
+		size_t cycle = 0;
+		auto timeStr = [&]() { auto t = sim.getCurrentSimulationTime(); return std::to_string(t.numerator()) + "/" + std::to_string(t.denominator()); };
+		std::vector<std::string> obsNames; // per output pin: the names under which the recorder may report it (all pins sharing its non-signal driver)
+		for (auto *p : outPins) {
+			std::string names;
+			auto key = p->getNonSignalDriver(0);
+			for (auto *q : outPins) if (q->getNonSignalDriver(0) == key) names += (names.empty() ? "" : "|") + q->getName();
+			if (auto *ip = dynamic_cast<hlim::Node_Pin*>(key.node)) names += "|" + ip->getName();
+			obsNames.push_back(names);
+		}
+		auto readAll = [&]() {
+			for (size_t i = 0; i < outPins.size(); i++) if (outPins[i]->getDriver(0).node) {
+				auto v = sim.simProcGetValueOfOutput(outPins[i]->getDriver(0)); reads++;
+				io << "obs " << cycle << ' ' << timeStr() << ' ' << obsNames[i] << ' ' << vh::bitsToString(v) << '\n';
+			}
+			scanUndefined();
+		};
 		sim.addSimulationProcess([&]() -> SimProcess {
 			if (!o.setAtPowerOn) co_await WaitFor(Seconds{1, 16} / clock.absoluteFrequency());
 			for (auto &row : st.cycles) {
 				for (size_t i = 0; i < inPins.size(); i++)
-					if (inPins[i]) sim.simProcSetInputPin(inPins[i], extFromString(row[i]));
+					if (inPins[i]) {
+						sim.simProcSetInputPin(inPins[i], extFromString(row[i]));
+						io << "stim " << cycle << ' ' << timeStr() << ' ' << inPins[i]->getName() << ' ' << row[i] << '\n';
+					}
 				if (o.style == 1) co_await WaitFor(Seconds{1, 3} / clock.absoluteFrequency());
 				if (o.style == 2) co_await WaitStable();
-				if (o.style != 0) {
-					for (auto *p : outPins) if (p->getDriver(0).node) { sim.simProcGetValueOfOutput(p->getDriver(0)); reads++; }
-					scanUndefined();
-				}
+				if (o.style != 0) readAll();
 				if (o.style == 1) { // second sample point after the opposite clock edge (observes registers of the other edge domain half a period early)
 					co_await WaitFor(Seconds{1, 3} / clock.absoluteFrequency());
-					for (auto *p : outPins) if (p->getDriver(0).node) { sim.simProcGetValueOfOutput(p->getDriver(0)); reads++; }
-					scanUndefined();
+					readAll();
 				}
 				co_await OnClk(clock);
-				if (o.style == 0) {
-					for (auto *p : outPins) if (p->getDriver(0).node) { sim.simProcGetValueOfOutput(p->getDriver(0)); reads++; }
-					scanUndefined();
-				}
+				if (o.style == 0) readAll();
+				cycle++;
 			}
 			if (o.endBehindEdge) {
 				// reads right after the last clock edge (registers have advanced), then the run ends 100 ps later: the recorder places
 				// these CHECKs a few ps behind the edge
 				co_await WaitStable();
-				for (auto *p : outPins) if (p->getDriver(0).node) { sim.simProcGetValueOfOutput(p->getDriver(0)); reads++; }
-				scanUndefined();
+				readAll();
 				co_await WaitFor(Seconds{100, 1'000'000'000'000ull});
 				sim.abort();
 			}
@@ -537,6 +604,7 @@ static bool runOne(uint64_t k, const vh::Recipe &recipe, const Opts &o, uint64_t
 		for (auto &f : files) dumpFile(os, "file", f);
 		dumpFile(os, "tb", dir / "testbench.vhd");
 		dumpFile(os, "vectors", dir / "testbench.testvectors");
+		os << io.str();
 		os << xview.str();
 		os << "end\n";
 		ok = true;
@@ -579,7 +647,7 @@ int main(int argc, char **argv)
 		o.style = (unsigned) rng.below(3);
 		o.undefStim = (flags & 32) && rng.chance(1, 2);
 		o.setAtPowerOn = (flags & 64) && rng.chance(1, 2);
-		if (flags & 16) { if (rng.chance(1, 2)) o.extra = (unsigned) rng.below(256); }
+		if (flags & 16) { if (rng.chance(1, 2)) o.extra = (unsigned) rng.below(512); }
 		o.triNaive = (flags & 128) && rng.chance(1, 2);
 		if ((o.extra & 4) && o.triNaive) o.setAtPowerOn = false; // at most one of the two recorder findings per case
 		o.extraSeed = rng.next();
